@@ -315,6 +315,12 @@ Theorem C16_multiform_collapse :
 Proof. intros S kzero Hz A psi x. apply mf_collapse_den. exact Hz. Qed.
 Print Assumptions C16_multiform_collapse.
 
+(* the row numbers collapse works with are unbounded, as the positions in the model's list are: the dtype of the
+   index column read from the source holds every row number (an int8 column would wrap at 128 rows) *)
+Theorem C16_collapse_index_unbounded : index_column_unbounded collapse_index_max.
+Proof. exact (fun _ => I). Qed.
+Print Assumptions C16_collapse_index_unbounded.
+
 (* symplectic_iff_commute, all rows *)
 Theorem C16_symplectic_iff_commute :
   forall a b, List.length a = List.length b -> iword_ok a -> iword_ok b ->
